@@ -21,6 +21,7 @@ struct C19 : drv::Harness
 		p.knobs["enforce"] = rng.chance(0.7);
 		p.knobs["hdr_order"] = rng.chance(0.6);               // 1 = CompIDs before MsgSeqNum, as fix8 itself and most engines encode
 		p.knobs["skip_logon"] = rng.chance(0.07);
+		p.knobs["logon_mode"] = rng.chance(0.15);             // 1 = the counterparty's Logon is a PossDup resend numbered below the expected number (stored control record)
 		int n = (int)rng.range(1, thorough ? 24 : 10);
 		for (int i = 0; i < n; ++i)
 		{
@@ -51,8 +52,17 @@ struct C19 : drv::Harness
 		int64_t t0 = sim::now_ns();
 		World w; w.configure(p);
 		const bool order = p.knob("hdr_order") != 0;
+		const bool low_logon = p.knob("logon_mode") == 1 && w.pers && !p.knob("skip_logon");
+		if (low_logon) { w.per = w.open_persister(); w.per->put(4, 7); }       // the session will expect 7
 		w.connect();
-		if (!p.knob("skip_logon")) { if (!w.peer_logon()) r.fail("harness_logon_failed", "logon", "no logon"); }
+		if (low_logon)
+		{
+			if (w.initiator) w.settle();
+			Flds f = { {35, "A"}, {49, w.peer_id}, {56, w.ses_id}, {34, "5"}, {43, "Y"}, {52, utc_ts(sim::now_ns())}, {122, utc_ts(sim::now_ns() - 3000000000ll)}, {98, "0"}, {108, std::to_string(w.hb)} };
+			w.peer.send(wire("FIX.4.2", f)); w.settle(); sim::count("logon_possdup_below_expected");
+			if (w.ses->st() != States::st_continuous) r.fail("logon_not_completed", "possdup_logon_below_expected", std::string("a Logon resent with PossDupFlag=Y and MsgSeqNum 5 (expected 7) left the session in state ") + state_name((int)w.ses->st()));
+		}
+		else if (!p.knob("skip_logon")) { if (!w.peer_logon()) r.fail("logon_not_completed", "logon", "plain in-sequence Logon exchange did not reach continuous"); }
 		int pins = 0;
 
 		auto build = [&](const std::string& type, long seq, const Flds& body, int pd, int ost, int comp, const std::string& h34text) -> std::string
